@@ -148,6 +148,31 @@ func runC13(c *Ctx) {
 		errs := []ssa.Value{readErr, trErr, libErr, revErr}
 		for _, r := range returnsOf(f) {
 			rv := retVals(r)
+			// tail call `return tfmr.ReverseTranslate(val)`: both results are handed through from the reverse translation,
+			// which itself returns the zero Value with every error
+			if rv[0] == revVal && revErr != nil && rv[1] == revErr {
+				okT := true
+				for _, e := range []ssa.Value{readErr, trErr, libErr} {
+					if e == nil || !knownNil(r.Block(), e, true) {
+						okT = false
+					}
+				}
+				rt := w.fn("transform", "Transformer.ReverseTranslate")
+				zeroOnErr := rt != nil
+				if rt != nil {
+					for _, rr := range returnsOf(rt) {
+						rrv := retVals(rr)
+						if isNilConst(rrv[1]) {
+							continue
+						}
+						if cst, ok := rrv[0].(*ssa.Const); !ok || cst.Value != nil {
+							zeroOnErr = false
+						}
+					}
+				}
+				c.check(okT && zeroOnErr, "pipeline", name+"#tail-return", r.Pos(), "the result of the reverse translation is returned as is (it carries the zero Value with every error) after the other three errors tested nil", "the reverse translation's results are passed through although it can return a non-zero value with an error, or an earlier error is not tested")
+				continue
+			}
 			if isNilConst(rv[1]) {
 				okS := rv[0] == revVal
 				for _, e := range errs {
